@@ -85,6 +85,7 @@ func ruleCL1(c *Ctx) *rule {
 	allowedCalls := map[string]bool{
 		"path/filepath.Abs": true, "path/filepath.Join": true, "path/filepath.Clean": true, "builtin.append": true, "builtin.len": true,
 		"builtin.min": true, "builtin.max": true, "builtin.make": true,
+		"slices.Concat": true, "slices.Clone": true, "slices.Grow": true, "slices.Clip": true, // copies: what they copy is sliced through
 		"github.com/bmatcuk/doublestar/v4.GlobWalk": true, "os.DirFS": true, "path/filepath.FromSlash": true, "path/filepath.ToSlash": true,
 	}
 	for i, s := range sinks {
